@@ -88,14 +88,19 @@ class OptimiserAnchors:
     def __init__(self, facts):
         self.f = facts
         cands = []
-        for b in facts.bodies.values():
-            if b.crate_kind != 'lib':
+        for b in list(facts.bodies.values()):
+            if b.crate_kind != 'lib' or b.is_closure:
                 continue
             if b.impl_trait and facts.norm(b.impl_trait).endswith('Basis'):
                 continue   # the Basis impl itself
-            cs = [(bi, t) for bi, t in b.calls() if is_trait_call(t, 'Basis', 'set_sampled')]
+            has = lambda x: any(is_trait_call(t, 'Basis', 'set_sampled') for _, t in x.calls())     # noqa: E731
+            if not has(b) and not any(has(c) for c in facts.closures_of(b)):
+                continue
+            # nest form: the proposal may sit in a closure handed to fold/for_each, or behind adaptors (pk/loopform.py)
+            nb = facts.nest_form(b, yields=False)
+            cs = [(bi, t) for bi, t in nb.calls() if is_trait_call(t, 'Basis', 'set_sampled')]
             if cs:
-                cands.append((b, cs))
+                cands.append((nb, cs))
         if len(cands) != 1:
             raise AnchorLost('expected exactly one function calling Basis::set_sampled (the stepping function), '
                              'found %d: %s' % (len(cands), [c[0].path for c in cands]))
